@@ -32,6 +32,112 @@ def _touches_indent(n):
     return out
 
 
+def layout_rules2(chk, fx):
+    PARSE = 'crates/erg_parser/parse.rs'
+    chk.rule('C10-R6', 'bracket depth is counted in pairs: in Lexer::next the `}` arm lowers enclosure_level only on the path that emits RBrace — the `}` that closes a string '
+                       'interpolation (`\\{` raises nothing) leaves it alone, otherwise a line break after an interpolated string inside parentheses becomes a Newline token')
+    chk.rule('C10-R7', 'what follows an operator decides prefix / infix (Lexer::op_fix): a line continuation `\\` and a comment `#` there are classified exactly like a space, so '
+                       '`a -\\` + line break + `b` and `a -#[c]# b` are the subtraction `a - b`')
+    chk.rule('C10-R8', 'adjacency is decided on one line: wherever the parser compares `x.col_end() == t.col_begin()` to glue a `[`, `.`, `::` or `(` to the expression before it, the '
+                       'lines are compared too — a continuation line indented to that column must not turn a call into a subscript')
+    fns = {T.norm(f['path']): f for f in fx.fns(LEX)}
+    nxt = fns.get('Lexer::next')
+    if chk.need(nxt is not None, 'Lexer::next not found'):
+        arm = None
+        for m in T.walk(nxt['body']):
+            if m.get('k') == 'Match':
+                for a in m['arms']:
+                    if any((x.get('v') or {}).get('char') == '}' for x in T.walk(a['pat']) if x.get('k') == 'PLit'):
+                        arm = a
+        if chk.need(arm is not None, "Lexer::next: the arm for '}' was not found"):
+            decs = []
+            for n, ctx in T.walk_ctx(arm['b']):
+                if n.get('k') in ('Assign', 'AssignOp') and T.show(T.peel(n['x'])).endswith('enclosure_level'):
+                    decs.append((n, ctx))
+            okk = bool(decs)
+            for n, ctx in decs:
+                # the decrement must sit in the branch that accepts RBrace, not before the interpolation test
+                in_branch = [c for c in ctx if c[0] == 'if' and 'interpol' in T.show(c[1])]
+                if not in_branch or in_branch[-1][2] is not False:
+                    okk = False
+            if okk:
+                chk.ok('C10-R6', 'rbrace', sample="'}': enclosure_level is lowered only when RBrace is emitted")
+            else:
+                chk.bad('C10-R6', 'Lexer::next', 'rbrace-decrement', "the '}' arm lowers enclosure_level before (or without) knowing whether the brace closes a string interpolation: after "
+                        '`"\\{x}"` inside parentheses the depth is one too low and the next line break ends the statement', LEX, arm['l'])
+    chk.rule('C10-R9', 'a `#[ ]#` comment inside a line is followed by the ordinary skipping of spaces: in Lexer::next the branch that skips the comment continues the scanning loop '
+                       '(it does not fall into the token match, which has no arm for a space)')
+    if nxt is not None:
+        found = False
+        for n, ctx in T.walk_ctx(nxt['body']):
+            if n.get('k') == 'If' and any(c.get('k') == 'MCall' and c['n'] == 'lex_multi_line_comment' for c in T.calls(n['c']) ) or \
+               (n.get('k') == 'If' and any(c.get('k') == 'MCall' and c['n'] == 'lex_multi_line_comment' for c in T.calls(n['t'])) and not any(c.get('k') == 'MCall' and c['n'] == 'lex_comment' for c in T.calls(n['t']))):
+                found = True
+                in_loop = any(c[0] == 'loop' for c in ctx)
+                conts = [x for x in T.walk(n['t']) if x.get('k') in ('Continue', 'Cont')]
+                if in_loop and conts:
+                    chk.ok('C10-R9', 'continue', sample='after lex_multi_line_comment: continue')
+                else:
+                    chk.bad('C10-R9', 'Lexer::next', 'no-rescan', 'after a `#[ ]#` comment Lexer::next goes on to the token match: a space after the comment (`a + #[c]# b`) is an '
+                            '"invalid character"', LEX, n.get('l'))
+                break
+        chk.need(found, 'Lexer::next: the branch that skips a multi-line comment was not found')
+    of = fns.get('Lexer::op_fix')
+    if chk.need(of is not None, 'Lexer::op_fix not found'):
+        inner = [m for m in T.walk(of['body']) if m.get('k') == 'Match' and T.peel(m['x']).get('k') == 'Tup']
+        if chk.need(len(inner) == 1, 'op_fix: the (prev_prev, cur) match was not found'):
+            def matches(p, ch):
+                k = p.get('k')
+                if k in ('Wild', 'Bind'):
+                    return True
+                if k == 'POr':
+                    return any(matches(q, ch) for q in p['p'])
+                if k == 'PLit':
+                    return (p.get('v') or {}).get('char') == ch
+                if k in ('PTupleStruct', 'PStruct') and p['d'].endswith('::Some'):
+                    sub = (p.get('p') or [f_['p'] for f_ in p.get('f', [])])
+                    return matches(sub[0], ch) if sub else True
+                return False
+
+            def classify(pp, cur):
+                for a in inner[0]['arms']:
+                    pt = a['pat']
+                    if pt.get('k') == 'PTuple' and len(pt['p']) == 2 and matches(pt['p'][0], pp) and matches(pt['p'][1], cur):
+                        return T.show(a['b'])
+                    if pt.get('k') in ('Wild', 'Bind'):
+                        return T.show(a['b'])
+                return None
+            for pp in (' ', 'x'):
+                base = classify(pp, ' ')
+                for cur, what in (('\\', 'a line continuation'), ('#', 'a comment')):
+                    got = classify(pp, cur)
+                    inst = 'after-op:%r:%r' % (pp, cur)
+                    if got == base:
+                        chk.ok('C10-R7', inst)
+                    else:
+                        chk.bad('C10-R7', 'Lexer::op_fix', inst, 'an operator followed by %s is classified %s, followed by a space %s: replacing the space after a binary operator '
+                                'by %s changes the tree (`a -\\` + line break + `b` becomes the call `a(-b)`)' % (what, got, base, what), LEX, of['line'])
+    nadj = 0
+    for f in fx.fns(PARSE, 'erg_parser'):
+        for n in T.walk(f['body']):
+            if n.get('k') == 'Binary' and n.get('op') == '==':
+                l, r = T.peel(n['x']), T.peel(n['y'])
+                names = {x.get('n') for x in (l, r) if x.get('k') == 'MCall'}
+                if names == {'col_end', 'col_begin'}:
+                    nadj += 1
+                    where = T.norm(f['path'])
+                    # the same condition (or the helper it lives in) must also compare lines
+                    holder = f['body']
+                    lines_too = any(x.get('k') == 'Binary' and x.get('op') == '==' and {y.get('n') for y in (T.peel(x['x']), T.peel(x['y'])) if y.get('k') == 'MCall'} == {'ln_end', 'ln_begin'}
+                                    for x in T.walk(holder))
+                    if lines_too:
+                        chk.ok('C10-R8', (where, n.get('l')))
+                    else:
+                        chk.bad('C10-R8', where, 'column-only', '%s glues a token to the expression before it when `col_end() == col_begin()` without comparing lines: `f ab \\` followed by a '
+                                'line indented to that column parses `[1]` as a subscript of `ab`' % where, PARSE, n.get('l'))
+    chk.floor('column adjacency tests in the parser', nadj, 1)
+
+
 def hash_rule(chk, fx):
     chk.rule('C10-R5', 'hashing a syntax-tree value does not look at positions: a hand-written `impl Hash` of erg_parser::ast / token reads no field of type Location (nor a line / '
                        'column field) and only fields its PartialEq compares — the parser keeps decorators in a hash set and wraps the definition in iteration order, so a position in '
@@ -67,6 +173,9 @@ def hash_rule(chk, fx):
             else:
                 chk.ok('C10-R5', nm, sample='%s hashes %s' % (nm, ', '.join(read) or '(nothing)'))
     chk.floor('hand-written Hash impls of syntax-tree types', n, 12)
+
+
+R4_EXCEPTIONS = {'Lexer::op_fix': 'after an operator both comment forms stand for a space: the decision does not depend on which one follows'}
 
 
 def layout_rules(chk, fx):
@@ -168,7 +277,11 @@ def layout_rules(chk, fx):
                         chk.bad('C10-R4', nm, 'hash-alone', "%s tests the character '#' without looking for a following '['" % nm, LEX, n.get('l'))
             continue
         cs = _chars(f['body'])
-        if '#' in cs:
+        if '#' in cs and nm in R4_EXCEPTIONS:
+            n4 += 1
+            chk.ok('C10-R4', ('exception', nm))
+            chk.notes.append({'exception': '%s: %s' % (nm, R4_EXCEPTIONS[nm])})
+        elif '#' in cs:
             n4 += 1
             if '[' in cs:
                 chk.ok('C10-R4', nm, sample="%s: '#' and '[' are inspected together" % nm)
@@ -255,6 +368,7 @@ def run(chk):
             chk.bad('C10-R2', 'Token::eq', 'fields', 'Token::eq reads %s: token equality depends on positions' % sorted(fields), 'crates/erg_parser/token.rs', tok[0]['line'])
     layout_rules(chk, fx)
     hash_rule(chk, fx)
+    layout_rules2(chk, fx)
     return ('Effect reachability over the resolved call graph (erg_parser + erg_common) from the parser entry points, an ADT rule on derived equality of the syntax tree, '
             'and two structural rules on the lexer\'s indentation machinery (comment-only / blank lines are filtered before any Indent/Dedent decision; every `#` decision '
             'separates `#[`). That the other layout rewrites of the property (line continuations, redundant parentheses) yield the same tree is not decided.'), {}
